@@ -12,4 +12,5 @@ CONSTANTS
   EndCodes = {0}
   Emit = TRUE
 INVARIANT EmitInv
+INVARIANT OracleHolds
 CHECK_DEADLOCK FALSE
